@@ -124,6 +124,11 @@ def run(R):
               "inside, the boundary, one outside target): in-gamut targets must be reproduced and their documented objective must be at "
               "its minimum 0 (within eps x max(w,1/w)); minimality for the outside target is certified on the weighted captures and "
               "recorded only (the weighted form of the objective is not documented). "
+              "The performance option batch_size of all fits of a system is drawn from {1, 2, 3, 4 (zero-padded last group), 'full'}: the five "
+              "targets are then solved jointly in groups; the certificates (gap, level certificate, in-gamut reproduction) judge each returned "
+              "row on its own against that row's objective, however it was computed (a group's objective is the sum of its rows' objectives "
+              "over disjoint variables - proved for the stacked least-squares form in Dreye.ExtrasA.stacked_objective_sum - so the rows of a "
+              "correct joint solve are row-wise optimal); counted: joint groups whose relative baseline K*baseline / bounds differ between receptors / sources. "
               "Non-trivial: target outside the gamut or on its boundary, or baseline non-zero.")
     kinds = ["inside", "inside", "boundary", "outside", "outside"]
     WROWS = [0, 2, 3]
@@ -179,9 +184,22 @@ def run(R):
         for mdl in ("gaussian", "poisson"):
             call(lsq_linear, S["A"], B[:1], lb=S["lb"], ub=S["ub"], W=W, K=K_other, baseline=S["baseline"], model=mdl, return_pred=True, solver="CLARABEL")
         call(lsq_linear_excitation, S["A"], B[:1], lb=S["lb"], ub=S["ub"], W=None, K=K_other, baseline=S["baseline"], return_pred=True)
-        stg, og = call(lsq_linear, g["A"], g["B"], lb=g["lb"], ub=g["ub"], W=g["W"], K=g["K"], baseline=g["baseline"], return_pred=True, solver="CLARABEL")
-        stp, op_ = call(lsq_linear, g["A"], g["B"], lb=g["lb"], ub=g["ub"], W=g["W"], K=g["K"], baseline=g["baseline"], model="poisson", return_pred=True, solver="CLARABEL")
-        ste, oe = call(lsq_linear_excitation, g["A"], g["B"], lb=g["lb"], ub=g["ub"], W=None, K=g["K"], baseline=g["baseline"], return_pred=True)
+        # the performance option batch_size (C05: never changes a result): the five targets are fitted one by one, in jointly solved
+        # groups of 2, 3 or 4 (zero-padded last group) or all at once. The certificates below judge every returned row on its own against
+        # that row's objective (the objective of a jointly solved group is the sum of the rows' objectives over disjoint variables, cf.
+        # theorem Dreye.ExtrasA.stacked_objective_sum for the least-squares form: a correct joint solve is optimal row by row).
+        # (own random stream: the systems, targets and representations are those of the runs without this option)
+        bs = [1, 2, 3, 4, "full"][int(R.rng(3, si).integers(5))]
+        bkw = {} if bs == 1 else dict(batch_size=bs)
+        c["batch_size"] = bs
+        nb_ = len(B) if bs == "full" else min(bs, len(B))
+        relb = np.asarray(S["bp"], dtype=float)
+        R.count("batch_size:%s" % bs)
+        R.count("joint-batch-with-relative-baseline-unequal-between-receptors:%s" % bool(nb_ >= 2 and len(set(relb.tolist())) > 1))
+        R.count("joint-batch-with-unequal-bounds:%s" % bool(nb_ >= 2 and (len(set(S["lb"].tolist())) > 1 or len(set(S["ub"].tolist())) > 1)))
+        stg, og = call(lsq_linear, g["A"], g["B"], lb=g["lb"], ub=g["ub"], W=g["W"], K=g["K"], baseline=g["baseline"], return_pred=True, solver="CLARABEL", **bkw)
+        stp, op_ = call(lsq_linear, g["A"], g["B"], lb=g["lb"], ub=g["ub"], W=g["W"], K=g["K"], baseline=g["baseline"], model="poisson", return_pred=True, solver="CLARABEL", **bkw)
+        ste, oe = call(lsq_linear_excitation, g["A"], g["B"], lb=g["lb"], ub=g["ub"], W=None, K=g["K"], baseline=g["baseline"], return_pred=True, **bkw)
         Ap, bp = S["Ap"], S["bp"]
         wv = np.ones(nf) if W is None else W
         # excitation with channel weights: a sub-batch (one inside, the boundary and one outside target)
@@ -189,7 +207,7 @@ def run(R):
         if W is not None and (both or whole or rr.random() < 0.5):
             R.count("excitation-fitted-with-weights")
             gBw = np.asarray(g["B"])[WROWS]
-            stw, ow = call(lsq_linear_excitation, g["A"], gBw.tolist() if isinstance(g["B"], list) else gBw, lb=g["lb"], ub=g["ub"], W=g["W"], K=g["K"], baseline=g["baseline"], return_pred=True)
+            stw, ow = call(lsq_linear_excitation, g["A"], gBw.tolist() if isinstance(g["B"], list) else gBw, lb=g["lb"], ub=g["ub"], W=g["W"], K=g["K"], baseline=g["baseline"], return_pred=True, **bkw)
             if stw == "ok":
                 for j, i in enumerate(WROWS):
                     xw = np.clip(ow[0][j], S["lb"], S["ub"])
